@@ -193,6 +193,29 @@ def install(I):
         return (days * 86400 + hr * 3600 + mi * 60 + sec) & ((1 << 64) - 1)
     M['gmtime_r'] = gmtime_r_; M['timegm'] = timegm_
     M['prctl'] = lambda I, *a: 0              # thread naming
+    # anonymous memory mappings: fresh zero-filled memory (what the kernel delivers); mremap keeps the contents and zero-fills the growth;
+    # the old address becomes invalid (MREMAP_MAYMOVE: modelled as always moving, the stricter reading); mapping failures are not in scope
+    def mmap_(I, addr, length, prot, flags, fd, off):
+        if isinstance(length, Sym): length = I.concretize(length, 'mmap length')
+        if isinstance(fd, Sym): fd = I.concretize(fd, 'mmap fd')
+        if (fd & 0xffffffff) != 0xffffffff: raise Unsupported('file-backed mmap')
+        return I.new_obj(length, 'mmap', 'zero')
+    def mremap_(I, old, old_size, new_size, flags, *rest):
+        if isinstance(new_size, Sym): new_size = I.concretize(new_size, 'mremap size')
+        if isinstance(old_size, Sym): old_size = I.concretize(old_size, 'mremap old size')
+        o = I.objs[old >> OBJ_SHIFT]
+        if not o.alive or o.kind != 'zero' or (old & ((1 << OBJ_SHIFT) - 1)): raise Finding('bad-mremap', o.name)
+        n = I.new_obj(new_size, 'mmap', 'zero')
+        I.memcpy(n, old, min(old_size, new_size, o.size))
+        o.alive = False
+        return n
+    def munmap_(I, addr, length):
+        o = I.objs[addr >> OBJ_SHIFT]
+        if not o.alive: raise Finding('double-unmap', o.name)
+        o.alive = False
+        return 0
+    M['mmap'] = mmap_; M['mmap64'] = mmap_; M['mremap'] = mremap_; M['munmap'] = munmap_
+    M['sysconf'] = lambda I, name: 4096
     # single-threaded runs: an uncontended mutex, condition variables nobody waits on (a wait would block forever: refused)
     M['pthread_mutex_lock'] = lambda I, m: 0; M['pthread_mutex_unlock'] = lambda I, m: 0
     for nme in ('_ZNSt18condition_variableC1Ev', '_ZNSt18condition_variableC2Ev', '_ZNSt18condition_variableD1Ev', '_ZNSt18condition_variableD2Ev',
